@@ -18,7 +18,7 @@ RULE = ("fits and paths of the five sparse estimators: every GEMINI, alpha in {0
 ASSUMPTIONS = ["reference proximal operators of C05 (closed form / bisection)",
                "rows whose skip weights are zero but hidden weights are not (non-unique minimiser) are skipped and counted"]
 EVAL_COUNTER = "evaluations"
-REQUIRED = {"quick": {"preliminary_fits_with_other_groups": 30, "steps_checked": 4000, "steps_with_shrinkage": 2000, "quiescent_points": 400,
+REQUIRED = {"quick": {"runs_with_twin_features": 20, "preliminary_fits_with_other_groups": 30, "steps_checked": 4000, "steps_with_shrinkage": 2000, "quiescent_points": 400,
                       "quiescent_with_unselected": 100, "inertness_perturbations": 100, "group_wholeness_checks": 80,
                       "steps:linear": 1000, "steps:mlp": 1000, "steps_grouped": 500},
             "thorough": {"steps_checked": 80000, "quiescent_points": 8000}}
@@ -251,6 +251,16 @@ def run_case(case, ctx, st):
     g = params.get("gemini")
     if isinstance(g, str) and g.startswith("wasserstein"):
         pass
+    twins = d >= 3 and rng.random() < 0.25
+    if twins:
+        # redundant (nearly duplicated) features, mini-batches and - half of the time - the dynamic mode: discarded features
+        # try to come back during later steps of a path
+        X = gen.with_twins(rng, X)
+        params["batch_size"] = int(max(2, n // int(rng.integers(3, 8))))
+        params["groups"] = None
+        if "dynamic" in params:
+            params["dynamic"] = bool(rng.random() < 0.6)
+        ctx.count("runs_with_twin_features")
     est = gen.build_estimator(name, params)
     if rng.random() < 0.3:
         # the same object was used before with ANOTHER group structure (a grid search re-configuring one estimator): what
